@@ -330,6 +330,31 @@ func c05Msg(r *ev.Run, n *wire.N, what string) {
 		m = pm
 		what += ", value obtained by parsing the reference encoding"
 		r.Add("values_obtained_from_parser", 1)
+		// a reply with several records is put together from the records of one-record replies, parsed
+		// one by one: the number of records in the value then does not depend on the decoder that is
+		// about to be tested on it
+		if recs := n.L["Body"]; n.K == "multipart_reply" && len(recs) >= 2 {
+			if mr, ok := pm.(*of.MultipartReply); ok {
+				var body []util.Message
+				for _, rec := range recs {
+					one := n.Clone()
+					one.SetL("Body", []*wire.N{rec.Clone()})
+					f1, _ := wire.Encode(one)
+					p1, e1, pn1 := safeParse(f1)
+					r1, ok1 := p1.(*of.MultipartReply)
+					if pn1 != nil || e1 != nil || !ok1 || len(r1.Body) != 1 {
+						body = nil
+						break
+					}
+					body = append(body, r1.Body[0])
+				}
+				if body != nil {
+					mr.Body = body
+					what += ", records taken from one-record replies"
+					r.Add("replies_assembled_from_single_records", 1)
+				}
+			}
+		}
 	}
 	b, err, pn := safeEncode(m)
 	if pn != nil || err != nil || len(b) < 8 {
